@@ -411,13 +411,37 @@ def eval_case(cid, src, imp, period, stack=None):
     return (cid, 'eval', [';'.join(opts), hxl(list(src))])
 
 
-def check_schedules(run, impl_exe, programs, rng, label):
-    periods = [0, 1, 2, 3, 7]
+def imp_opt(imp):
+    return ['imp=' + '|'.join('%s:%s' % (dotted(k.encode()), dotted(v)) for k, v in sorted(imp.items()))] if imp else []
+
+
+def measure_steps(impl_exe, programs):
+    """upper estimate of the number of evaluator steps (maybe_gc calls) of each program: one run
+    through gcheap/prog with period 0x400, steps <= (collections + 1) * 0x400"""
+    cases = [('m%d' % pi, 'gcheap', ['prog', ';'.join(['gc=400'] + imp_opt(imp)), '1', hxl(list(src))])
+             for pi, (name, src, imp) in enumerate(programs)]
+    res = vlib.run_sharded(impl_exe, [vlib.impl_line(c) for c in cases], timeout=900)
+    out = []
+    for pi in range(len(programs)):
+        m = re.search(r'\tR=([0-9a-f]+)', res.get('m%d' % pi, ''))
+        out.append(((int(m.group(1), 16) - 2 + 1) * 0x400) if m else None)
+    return out
+
+
+def check_schedules(run, impl_exe, programs, rng, label, budget=20000):
+    steps = measure_steps(impl_exe, programs)
     cases = []
     meta = {}
     for pi, (name, src, imp) in enumerate(programs):
+        if steps[pi] is None:
+            run.count('sched_unmeasured')   # crash/timeout of the measuring run: still compared below
+            pmin = 64
+        else:
+            pmin = max(1, -(-steps[pi] // budget))
         rp = rng.choice([4, 5, 11, 13, 29, 64, 257])
-        for per in periods + [rp]:
+        periods = sorted(set([0, pmin, pmin + 1] + [p for p in (1, 2, 3, 7, rp) if p >= pmin]))
+        run.count('sched_pmin_%s' % ('1' if pmin == 1 else '2-7' if pmin <= 7 else '8+'))
+        for per in periods:
             cid = 'e%d_%x' % (pi, per)
             cases.append(eval_case(cid, src, imp, per))
             meta[cid] = (pi, per)
@@ -447,19 +471,21 @@ def check_schedules(run, impl_exe, programs, rng, label):
         if base.split('\t')[0] in ('OK', 'ERR'):
             run.nontrivial.add(('sched', name))
         if name.startswith('gen/') and len([s for s in run.samples if s.get('component') == 'eval']) < 2:
-            run.samples.append({'component': 'eval', 'program': src.decode('utf-8', 'replace')[:200], 'periods': periods + ['random'], 'result': base[:120]})
+            run.samples.append({'component': 'eval', 'program': src.decode('utf-8', 'replace')[:200], 'periods': sorted(rs), 'result': base[:120]})
 
 
-def check_baseline(run, impl_exe, programs, rng, label):
+def check_baseline(run, impl_exe, programs, rng, label, heavy=400000):
     """long-lived Program: object count after dropping all results and collecting == baseline"""
     cases = []
     meta = {}
-    simple = list(programs)
+    st = measure_steps(impl_exe, programs)
+    simple = [p for p, n in zip(programs, st) if n is not None and n <= heavy]
+    run.count('baseline_skipped_heavy', len(programs) - len(simple))
     batch = 6
     k = 0
     for b in range(0, len(simple), batch):
         grp = simple[b:b + batch]
-        for per in (0, rng.choice([3, 5, 17])):
+        for per in (0, rng.choice([17, 64, 257])):
             cid = 'b%d' % k
             k += 1
             imp = {}
@@ -515,6 +541,10 @@ def corpus_programs():
 
 
 def check(run):
+    import time
+    t0 = time.time()
+    def tick(what):
+        vlib.log('[C03 %6.1fs] %s' % (time.time() - t0, what))
     rng = vlib.rng_for(run.seed, ID)
     thorough = run.tier == 'thorough'
     run.rule = ('heap: (a) exhaustive heaps of <=3 nodes (every root kind none/handle/view per node x every edge set incl. self loops), '
@@ -533,12 +563,20 @@ def check(run):
         run.extra['gctrace_summary'] = summ
     except Exception as e:
         run.add_obligation('T:GcTrace field table translated from data.rs/trace.rs/mod.rs', False, '%s: %s' % (type(e).__name__, e))
+    tick('translated')
     # proofs
     pres = vlib.prove(ID, THEOREMS, ALLOWED_AXIOMS)
+    if not pres['ok'] and any('unknown location' in f for f in pres['failed']):
+        # make failed without naming a file: another check regenerating the shared Makefile; once more
+        time.sleep(5)
+        pres = vlib.prove(ID, THEOREMS, ALLOWED_AXIOMS)
     run.add_proof(pres, THEOREMS)
+    tick('proved')
     # build
     impl_exe = vlib.build_harness()
+    tick('harness built')
     model_exe = vlib.build_model('gc')
+    tick('model built')
     # K + oracle (1): scripted heaps
     cases = corpus_cases()
     run_heap_cases(run, cases, impl_exe, model_exe, 'heap_corpus')
@@ -556,20 +594,23 @@ def check(run):
             cases.append(('x%d' % k, ops)); k += 1
     run_heap_cases(run, cases, impl_exe, model_exe, 'heap_exhaustive_small')
     cases = []
-    for i in range(60000 if thorough else 1500):
+    for i in range(60000 if thorough else 800):
         cases.append(('y%d' % i, random_heap(rng, rng.choice((4, 4, 5, 6, 8)))))
     run_heap_cases(run, cases, impl_exe, model_exe, 'heap_random_shape')
     cases = []
-    for i in range(80000 if thorough else 5000):
+    for i in range(80000 if thorough else 3000):
         cases.append(('s%d' % i, gen_ops(rng)))
     run_heap_cases(run, cases, impl_exe, model_exe, 'heap_op_sequences')
+    tick('heaps done')
     # (2) schedule independence, (3) baseline
     ui = ui_programs(vlib.REPO)
     gen = gen_programs(rng, 400 if thorough else 44, (5, 40, 120, 400, 1200) if thorough else (5, 40, 120, 400))
     cp = corpus_programs()
-    progs = cp + gen + (ui if thorough else rng.sample(ui, min(len(ui), 150)))
-    check_schedules(run, impl_exe, progs, rng, 'sched_programs')
-    check_baseline(run, impl_exe, cp + gen + [p for p in ui if p[0].startswith('pass')][:(10 ** 6 if thorough else 60)], rng, 'baseline_batches')
+    progs = cp + gen + (ui if thorough else rng.sample(ui, min(len(ui), 80)))
+    check_schedules(run, impl_exe, progs, rng, 'sched_programs', 200000 if thorough else 8000)
+    tick('schedules done')
+    check_baseline(run, impl_exe, cp + gen + [p for p in ui if p[0].startswith('pass')][:(10 ** 6 if thorough else 30)], rng, 'baseline_batches', 10 ** 7 if thorough else 400000)
+    tick('baseline done')
 
 
 def replay(run, path):
